@@ -229,6 +229,16 @@ def work(item):
                     r = check_refr(st, env, sym, E, rho)
                     if r:
                         st.violation(*r)
+        # names that agree in a long prefix, one after the other, and trace-level subscripts
+        stem = "Fe0.70Cr0.18Ni0.08Mn0.02Si0.01C0.0004P0.0002S0.0001"
+        for nm in (stem + "Mo0.01", stem + "Mo0.09", stem + "Mo0.01", "Si0.9999995B0.0000005", "SiO2(Fe2O3)0.0000004", "Polyethylene", "Polyethylene Terephthalate (Mylar)", "H2O", "H2O2"):
+            for E in (8.0, 30.0):
+                r = check_cp(st, env, nm, E, 1.0, 0.5)
+                if r:
+                    st.violation(*r)
+                r = check_refr(st, env, nm, E, 2.0)
+                if r:
+                    st.violation(*r)
         return st
 
     def prop_cp(st, name, E, th, ph):
